@@ -1,3 +1,6 @@
 import Sqljson.Audit
 import Sqljson.Props.C09
+import Sqljson.Props.C09b
 #audit_ns C09 Sqljson.C09
+#audit_ns C09 Sqljson.C09b
+#audit C09 [Sqljson.Exec.Compose.comp_all, Sqljson.Exec.Compose.compP_all, Sqljson.Exec.Compose.compose_rel, Sqljson.Exec.Compose.compose_relP, Sqljson.Exec.Compose.frame_all, Sqljson.Exec.Compose.bud_all]
